@@ -23,6 +23,10 @@ pub struct CrashPoint {
     pub tail_seed: u64,
     /// Crash again during recovery after this many recovery journal entries.
     pub second: Option<usize>,
+    /// Directory entries (creations, renames) not made durable by an fsync of their directory
+    /// are lost: 0 = no, 1 = all of them, 2 = a seeded subset.
+    #[serde(default)]
+    pub lose_dirents: u8,
 }
 
 #[derive(Clone, Debug, Serialize, Deserialize, PartialEq)]
